@@ -25,6 +25,10 @@ Families
             weighted mean / Q + weighted covariance; regime family: measurement noise 1e-2 .. 1e3 times the
             spread of the predicted observation (ESS from a few particles to ~N), n = 1..6, N = 1e3..2e5;
             a record the call did not produce = mismatch, searched with more particles (no crash)
+  constants every subset of the optional constants (c1, c2) absent x (B, D zero or not): pp.module.LTI and LTV (constant
+            matrices) built without them / with None, the user's own classes without the term; EKF / UKF single steps and
+            runs against the Kalman filter (an absent constant is the zero vector), PF with recorded draws and the band;
+            the same subsets are drawn at random in the step / run / pf families; a PF call that raises is a reported input
 """
 import math
 from ..common import *
@@ -32,7 +36,7 @@ from ..common import *
 RULE = ('one case = one filter call (system, Q, R, x, y, u, P, k); non-trivial = state dimension >= 2 (non-diagonal P) '
         'or a nonlinear system; distinct by all numeric inputs; directed block: the Coq witnesses, every state dimension 1..6, '
         'every k class (None, 0, positive, negative, fractional), both system classes, linear and nonlinear, extreme covariance '
-        'scales; PF cases: distinct by recorded draws')
+        'scales, every subset of the optional constants c1 / c2 of LTI / LTV absent, B / D zero; PF cases: distinct by recorded draws')
 
 REL = 1e-6           # tolerance relative to the natural scale of the quantity (model tie and oracle)
 
@@ -78,14 +82,40 @@ def is_linear(S):
     return not any(S['a']) and not any(S['b'])
 
 
+CONSTANT_SUBSETS = [(), ('c1',), ('c2',), ('c1', 'c2')]
+
+
+def with_constants(S, none=(), zero=()):
+    """the same system with the optional constants in `none` ABSENT (pp.module.LTI / LTV: c1, c2 default to None = no
+    constant term = the zero vector of the property's  x' = A x + B u + c1,  y = C x' + D u + c2) and the matrices /
+    constants in `zero` explicitly zero (B, D: no control input / no feed-through; they are not optional in LTI).
+    The numeric description S (what the oracles and the Coq model read) holds zeros in both cases."""
+    S = dict(S)
+    for q in tuple(none) + tuple(zero):
+        v = S[q]
+        S[q] = [[0.0] * len(v[0]) for _ in v] if isinstance(v[0], list) else [0.0] * len(v)
+    if none:
+        S['none'] = sorted(none)
+    return S
+
+
 def build_system(pp, torch, S, kind):
     """the user's system object: 'nls' = subclass of pp.module.NLS (A, C by autograd),
-    'sys' = subclass of pp.module.System with explicit A, B, C, D (linear only), 'lti' = pp.module.LTI"""
+    'sys' = subclass of pp.module.System with explicit A, B, C, D (linear only), 'lti' = pp.module.LTI,
+    'ltv' = pp.module.LTV with constant matrices.  S['none'] lists the optional constants the user leaves out
+    (LTI / LTV: not passed or passed as None, both documented; own classes: the term is not written)."""
     T = lambda v: torch.tensor(v, dtype=torch.float64)
     A, B, C, D, c1, c2, a, b = (T(S[q]) for q in ('A', 'B', 'C', 'D', 'c1', 'c2', 'a', 'b'))
     n, m = len(S['c1']), len(S['c2'])
-    if kind == 'lti':
-        return pp.module.LTI(A, B, C, D, c1, c2)
+    none = tuple(S.get('none') or ())
+    assert all(not any(S[q]) for q in none)
+    if kind in ('lti', 'ltv'):
+        cls = pp.module.LTI if kind == 'lti' else pp.module.LTV
+        if not none:
+            return cls(A, B, C, D, c1, c2)
+        if int(round(abs(S['A'][0][0]) * 1e6)) % 2:             # explicit None, positionally
+            return cls(A, B, C, D, None if 'c1' in none else c1, None if 'c2' in none else c2)
+        return cls(A, B, C, D, **{q: v for q, v in (('c1', c1), ('c2', c2)) if q not in none})
 
     def padsq(x, d):
         sq = x * x
@@ -94,10 +124,12 @@ def build_system(pp, torch, S, kind):
         return torch.cat([sq, sq.new_zeros(sq.shape[:-1] + (d - sq.shape[-1],))], -1)
 
     def f(x, u):
-        return pp.bmv(A, x) + pp.bmv(B, u) + c1 + a * padsq(x, n)
+        r = pp.bmv(A, x) + pp.bmv(B, u) + a * padsq(x, n)
+        return r if 'c1' in none else r + c1
 
     def h(x, u):
-        return pp.bmv(C, x) + pp.bmv(D, u) + c2 + b * padsq(x, m)
+        r = pp.bmv(C, x) + pp.bmv(D, u) + b * padsq(x, m)
+        return r if 'c2' in none else r + c2
     if kind == 'nls':
         class Sys(pp.module.NLS):
             def state_transition(self, state, input, t=None):
@@ -106,7 +138,7 @@ def build_system(pp, torch, S, kind):
             def observation(self, state, input, t=None):
                 return h(state, input)
         return Sys()
-    assert is_linear(S)
+    assert is_linear(S) and kind == 'sys', kind
 
     class Sys2(pp.module.System):
         def state_transition(self, state, input, t=None):
@@ -578,7 +610,10 @@ def judge_pf_cond(pp, torch, case, rec=None):
     if not (is_spd(c['P']) and is_spd(c['Q']) and is_spd(c['R'])):
         return []
     if rec is None:
-        rec = pf_run(pp, torch, c, N, seed, case.get('syskind', 'nls'))
+        try:
+            rec = pf_run(pp, torch, c, N, seed, case.get('syskind', 'nls'))
+        except Exception as e:      # noqa
+            return [('PF.forward:raises', 'PF.forward (system class %s, N=%d) raised %s: %s' % (case.get('syskind', 'nls'), N, type(e).__name__, e))]
     b = pf_cond(c, rec, N)
     if b is None:
         return []
@@ -738,6 +773,8 @@ class Run:
         ctx.case((filt, kind, repr(c)), nontrivial=(n >= 2) or not lin,
                  branch='%s-%s-%s-n%d%s' % (filt, kind, 'lin' if lin else 'nonlin', n, '' if filt == 'ekf' else '-k:' + kclass(c.get('k'))),
                  sample=dict(filter=filt, system=kind, n=n, m=len(c['y']), x=c['x'], P=c['P'], out_x=ox, out_P=oP) if n == 2 and family == 'step' else None)
+        if family != 'run' and (c['S'].get('none') or kind in ('lti', 'ltv')):
+            ctx.count('%s-%s-constants-absent:%s' % (filt, kind, '+'.join(c['S'].get('none', ())) or 'none'))
         if not finite(ox, oP):
             ctx.violation('%s.forward:non-finite-result' % filt.upper(), 'result %r %r' % (ox, oP), meta)
             return None
@@ -768,12 +805,12 @@ class Run:
         return ox, oP
 
     # ---- a run: the user's loop around forward
-    def run_case(self, filt, rng, n, m, p, T, nonlinear=False, kind='nls', k=None):
+    def run_case(self, filt, rng, n, m, p, T, nonlinear=False, kind='nls', k=None, none=(), zero=()):
         """the user's loop  x, P = filter(x, y_t, u_t, P, Q, R)  around a simulated stable system (measurement taken
         after the transition, as the property states)"""
         np = np_()
         c0 = gen_case(rng, n, m, p, nonlinear=nonlinear, k=k)
-        S = c0['S']
+        S = c0['S'] = with_constants(c0['S'], none, zero)
         rho = max(abs(np.linalg.eigvals(np.array(S['A']))))
         if rho > 0.9:
             S['A'] = (np.array(S['A']) * (0.9 / rho)).tolist()
@@ -806,6 +843,7 @@ class Run:
                 self.ctx.count('run-stopped-covariance-not-spd-or-estimate-diverged-' + filt)
                 break
             self.ctx.count('run-steps-' + filt)
+        self.ctx.count('run-%s-constants-absent:%s' % (kind, '+'.join(S.get('none', ())) or 'none'))
         self.ctx.traces += 1
 
     # ---- PF
@@ -933,7 +971,19 @@ def witnesses(R):
 
 
 def judge_pf(pp, torch, meta, rec=None):
-    rec = pf_run(pp, torch, meta['case'], meta['N'], meta['seed']) if rec is None else rec
+    """band + conditional clause of one PF call; a call that raises on inputs inside the quantifier is a finding with that input"""
+    if rec is None:
+        try:
+            rec = pf_run(pp, torch, meta['case'], meta['N'], meta['seed'], meta.get('syskind', 'nls'))
+        except Exception as e:      # noqa
+            c = meta['case']
+            if not (is_spd(c['P']) and is_spd(c['Q']) and is_spd(c['R'])):
+                return []
+            return [('PF.forward:raises', 'PF.forward (system class %s, N=%d) raised %s: %s' % (meta.get('syskind', 'nls'), meta['N'], type(e).__name__, e))]
+    return judge_pf_rec(pp, torch, meta, rec)
+
+
+def judge_pf_rec(pp, torch, meta, rec):
     out = judge_pf_cond(pp, torch, meta, rec)      # given the particles: resampled mean / covariance against the weighted ones
     b = judge_pf_band(pp, torch, meta['case'], meta['N'], meta['seed'], rec)
     if b is None or b['neff'] < 50:        # weights collapsed onto a few particles: the standard error estimate is not reliable
@@ -945,6 +995,48 @@ def judge_pf(pp, torch, meta, rec=None):
                     'PF mean %r (N=%d, N_eff=%.0f) is %.1f sigma from the posterior mean %r of the documented particle model%s'
                     % (b['est'], b['N'], b['neff'], b['z_documented'], b['documented'], hint)))
     return out
+
+
+def near_predicted(c, rng, sd=None):
+    """the case with its measurement near the predicted observation (keeps the PF weights from collapsing)"""
+    np = np_()
+    S = c['S']
+    xpred = np.array(S['A']) @ np.array(c['x']) + np.array(S['B']) @ np.array(c['u']) + np.array(S['c1'])
+    ypred = np.array(S['C']) @ xpred + np.array(S['D']) @ np.array(c['u']) + np.array(S['c2'])
+    c['y'] = [float(v + rng.gauss(0, 1) * (math.sqrt(max(c['R'][i][i], 1e-12)) if sd is None else sd)) for i, v in enumerate(ypred)]
+    return c
+
+
+def optional_constants(R):
+    """directed block: every subset of the optional constants (c1, c2) absent x (B, D zero or not) -- an absent constant is the
+    zero vector of the property's system.  pypose's own linear classes (LTI; LTV with constant matrices; constants not passed or
+    passed as None) and the user's own classes (term not written), EKF / UKF against the Kalman filter, PF against its
+    documented particle model (recorded draws + band)."""
+    ctx, rng, pp, torch = R.ctx, R.ctx.rng, R.pp, R.torch
+    ci = 0
+    for none in CONSTANT_SUBSETS:
+        for zero in ((), ('B',), ('D',), ('B', 'D')):
+            ci += 1
+            n, m, p = ci % 6 + 1, (5 * ci) % 6 + 1, ci % 3 + 1
+            for filt in ('ekf', 'ukf'):
+                c = gen_case(rng, n, m, p, k=None if filt == 'ekf' else rng.choice([None, 0, 1, 0.5]))
+                c['S'] = with_constants(c['S'], none, zero)
+                R.step_case(filt, c, 'lti', family='directed')
+            c = gen_case(rng, m, n, p, k=None if ci % 2 else rng.choice([None, 2, 2.75]))
+            c['S'] = with_constants(c['S'], none, zero)
+            R.step_case('ukf' if ci % 2 == 0 else 'ekf', c, ('ltv', 'nls', 'sys', 'ltv', 'ltv')[ci % 5], family='directed')
+        # PF on the same class of systems: few particles with every draw recorded (model tie + likelihood clause), and the band
+        for j, kind in enumerate(('lti', 'ltv')):
+            n, m = rng.randint(1, 3), rng.randint(1, 3)
+            c = gen_case(rng, n, m, 1, scales=[10.0 ** rng.uniform(-1, 1) for _ in range(3)])
+            c['S'] = with_constants(c['S'], none, [(), ('B',), ('D',)][(ci // 4 + j) % 3])
+            R.pf_case(near_predicted(c, rng), rng.choice([5, 8, 12]), rng.randint(0, 10 ** 6), kind=kind)
+        c = gen_case(rng, rng.randint(1, 3), rng.randint(1, 2), 1, scales=[1.0, 10.0 ** rng.uniform(-0.5, 0.5), 10.0 ** rng.uniform(-0.5, 0.5)])
+        c['S'] = with_constants(c['S'], none)
+        meta = dict(kind='pfband', case=near_predicted(c, rng, 1.0), N=20000, seed=rng.randint(0, 10 ** 6), syskind='lti')
+        ctx.case(('pfband', repr(c)), branch='pf-band')
+        ctx.count('pf-band-lti-constants-absent:' + ('+'.join(none) or 'none'))
+        R.report(judge_pf(pp, torch, meta), meta)
 
 
 # ------------------------------------------------------------------------------------------------ run
@@ -967,6 +1059,7 @@ def run(ctx):
             R.step_case(filt, gen_case(rng, 3, 2, 1, scales=sc, k=rng.choice([None, 1])), 'nls', family='directed')
     for k in (None, 0, 1, 3, 0.5, 2.75, -0.5, -1.5):
         R.step_case('ukf', gen_case(rng, 3, 2, 2, k=k), 'nls', family='directed')
+    optional_constants(R)
     # sigma points reproduce (x, P), diagonal or not
     for n in (1, 2, 4):
         for diag in (True, False):
@@ -980,14 +1073,21 @@ def run(ctx):
         nonlin = rng.random() < 0.3
         k = rng.choice([None, None, 0, 1, 2, 3, 0.5, 2.75, -0.5 if n >= 1 else 0, -0.25 * n])
         kind = rng.choice(['sys', 'lti', 'nls', 'nls']) if not nonlin else 'nls'
-        R.step_case(filt, gen_case(rng, n, m, p, nonlinear=nonlin, k=k if filt == 'ukf' else None, diagonal=rng.random() < 0.1), kind)
+        c = gen_case(rng, n, m, p, nonlinear=nonlin, k=k if filt == 'ukf' else None, diagonal=rng.random() < 0.1)
+        if rng.random() < (0.6 if kind == 'lti' else 0.15):
+            # optional constants absent / no control input / no feed-through
+            c['S'] = with_constants(c['S'], rng.choice(CONSTANT_SUBSETS), rng.choice([(), (), ('B',), ('D',), ('B', 'D')]))
+        R.step_case(filt, c, kind)
     # ---- runs
     plan = [(6, 4, 2, 50), (2, 2, 1, 50), (3, 5, 1, 30), (1, 1, 1, 50), (4, 2, 2, 50), (5, 6, 3, 20)] if not ctx.thorough else \
         [(rng.randint(1, 6), rng.randint(1, 6), rng.randint(1, 3), rng.choice([50, 50, 20, 35])) for _ in range(30)]
     for (n, m, p, T) in plan:
         for filt in ('ekf', 'ukf'):
             R.run_case(filt, rng, n, m, p, T, nonlinear=(0.01 if n == 3 else False), kind=('nls' if n == 3 else rng.choice(['nls', 'lti', 'sys'])),
-                       k=None if filt == 'ekf' else rng.choice([None, 1, 0.5]))
+                       k=None if filt == 'ekf' else rng.choice([None, 1, 0.5]), none=rng.choice(CONSTANT_SUBSETS), zero=rng.choice([(), (), ('B',), ('D',)]))
+    # a run on pypose's own LTI with exactly one of the optional constants (the user's loop, one filter object)
+    R.run_case('ekf', rng, 3, 2, 1, 8, kind='lti', none=('c1',))
+    R.run_case('ukf', rng, 2, 3, 2, 8, kind='lti', k=rng.choice([None, 1]), none=('c2',))
     # ---- PF: recorded draws against the model
     for t in range(ctx.scale(40, 300)):
         n, m, p = rng.randint(1, 3), rng.randint(1, 3), rng.randint(1, 2)
@@ -1000,6 +1100,8 @@ def run(ctx):
             ctx.count('pf-far-from-origin')
         else:
             c = gen_case(rng, n, m, p, nonlinear=(t % 3 == 2), scales=[10.0 ** rng.uniform(-2, 2) for _ in range(3)])
+        if t % 4 == 0:
+            c['S'] = with_constants(c['S'], rng.choice(CONSTANT_SUBSETS), rng.choice([(), (), ('B',), ('D',)]))
         # measurements near the predicted observation keep the weights from collapsing onto one particle
         np = np_()
         S = c['S']
@@ -1007,6 +1109,15 @@ def run(ctx):
         ypred = np.array(S['C']) @ xpred + np.array(S['D']) @ np.array(c['u']) + np.array(S['c2'])
         c['y'] = [float(v + rng.gauss(0, 1) * math.sqrt(max(c['R'][i][i], 1e-12))) for i, v in enumerate(ypred)]
         R.pf_case(c, rng.choice([5, 8, 12]) if far else rng.choice([1, 2, 5, 8, 12]), rng.randint(0, 10 ** 6), kind='nls' if t % 4 else (rng.choice(['sys', 'lti']) if is_linear(S) else 'nls'))
+    # ---- PF: outlier measurements (40 .. 300 innovation standard deviations from the predicted observation: every Gaussian
+    # likelihood underflows in float64, the weights exist only in log space): recorded draws, softmax, resampling clause
+    for t, ofs in enumerate((40.0, 60.0, 120.0, 300.0)):
+        n = t % 3 + 1
+        c = gen_pf_regime(rng, n, rng.randint(1, 3), rng.randint(1, 2), 10.0 ** rng.uniform(-0.5, 0.5), nonlinear=(t == 2), offset=ofs)
+        R.pf_case(c, rng.choice([2, 5, 12]), rng.randint(0, 10 ** 6), kind='nls' if t % 2 else 'lti' if is_linear(c['S']) else 'nls')
+        meta = dict(kind='pfcond', case=c, N=2000, seed=rng.randint(0, 10 ** 6), syskind='nls')
+        ctx.case(('pfoutlier', repr(c)), branch='pf-outlier-measurement')
+        R.report(judge_pf_cond(pp, torch, meta), meta)
     # ---- PF: Monte-Carlo band on random linear systems against the documented particle model
     for t in range(ctx.scale(20, 100)):
         n, m = rng.randint(1, 3), rng.randint(1, 2)
@@ -1095,7 +1206,10 @@ def judge_pf_parts(pp, torch, case):
     property text (prior N(x, nP); Gaussian likelihood; cumulative-sum resampling; mean and covariance)"""
     np = np_()
     c, N, seed = case['case'], case['N'], case['seed']
-    rec = pf_run(pp, torch, c, N, seed, case.get('syskind', 'nls'))
+    try:
+        rec = pf_run(pp, torch, c, N, seed, case.get('syskind', 'nls'))
+    except Exception as e:      # noqa
+        return [('PF.forward:raises', 'PF.forward (system class %s, N=%d) raised %s: %s' % (case.get('syskind', 'nls'), N, type(e).__name__, e))]
     out = judge_pf_cond(pp, torch, case, rec)
     bad = pf_missing(rec, c, N)
     if any(k in bad for k in ('xp', 'eps', 'logp', 'x', 'P')):
